@@ -249,8 +249,14 @@ def run(ctx):
             # a reset is harmless only before anything was signalled
             fk0 = Flow(P, tkc, events={i_: [("set", "sink")] for i_ in tkc.calls("getAndTryToKillPids", "Fs::writeKillAt")}, cg=ctx.cg)
             rhs = "0" if fk0.may(w, "sink") else "1"
-        ok = re.match(r"^this->getAndTryToKillPids\(param:target\)$", rhs) or rhs == "1" or \
-            rhs == "Oomd::Fs::readPidsCurrentAt(param:target.fd()).value()"
+        def _ok_value(t_):
+            return bool(re.match(r"^this->getAndTryToKillPids\(param:target\)$", t_)) or t_ == "1" or \
+                t_ in ("Oomd::Fs::readPidsCurrentAt(param:target.fd()).value()", "*Oomd::Fs::readPidsCurrentAt(param:target.fd())")
+        ok = _ok_value(rhs)
+        rn_ = tkc.nodes[tkc.strip(write_rhs(tkc, w))]
+        if not ok and rn_["k"] == "cond":
+            # the conditional spelling of the same two assignments: each arm is one of the documented values
+            ok = _ok_value(Xc0(rn_["t"])) and _ok_value(Xc0(rn_["f"]))
         ctx.check(bool(ok), "accumulate-only-kill-results:tryToKillCgroup", "value-shape", tkc.loc(w),
                   "nrKilled receives kill results (or the documented cgroup.kill count)", "nrKilled receives " + rhs[:60])
 
